@@ -35,9 +35,10 @@ bool ops_map(Ctx& c, const json& s, int idx, bool& handled) {
 			++k; }
 		return true; }
 	if (op == "map_probe") { uint32_t lg = s["lg"], h = s["h"]; uint32_t w = 1u << lg; std::size_t n = (std::size_t)w * h;
-		// image: tile i carries mapping index i % 2048, cell type i % 32 and lavaPossible = parity of i / 7
+		// image: tile i carries mapping index i % 2048, cell type i % 32 and lavaPossible = parity of i / 7, the remaining bits other patterns
 		std::vector<unsigned char> img; auto le32 = [&](uint32_t v) { for (int i = 0; i < 4; ++i) img.push_back((unsigned char)(v >> (8 * i))); };
-		le32(0x1011); le32(0); le32(lg); le32(h); le32(0); for (std::size_t i = 0; i < n; ++i) le32((uint32_t)(i % 32) | ((uint32_t)(i % 2048) << 5) | ((uint32_t)((i / 7) & 1) << 28));
+		le32(0x1011); le32(0); le32(lg); le32(h); le32(0); for (std::size_t i = 0; i < n; ++i) le32((uint32_t)(i % 32) | ((uint32_t)(i % 2048) << 5) | ((uint32_t)((i / 7) & 1) << 28)
+			| ((uint32_t)((i * 37 + 11) % 2048) << 16) | ((uint32_t)((i / 3) & 1) << 27) | ((uint32_t)((i / 5) % 8) << 29));     // ... and every OTHER field (unit index, lava, wall, expansion, scorch) filled with its own pattern: an accessor reads its own bits only
 		for (int i = 0; i < 16; ++i) img.push_back(0); for (char ch : std::string("TILE SET\x1a", 9)) img.push_back((unsigned char)ch); img.push_back(0); le32(2048); for (uint32_t k = 0; k < 2048; ++k) { auto le16 = [&](uint32_t v) { img.push_back((unsigned char)v); img.push_back((unsigned char)(v >> 8)); }; le16((k * 7 + 3) % 65536); le16((k * 13 + 1) % 65536); le16(0); le16(0); }
 		le32(0); le32(0x1011); le32(0x1011); le32(0); le32(0);
 		Map m; if (throws([&] { m = map_from(img); })) { Proto::mismatch(site, "refused-should-accept", where("")); return false; }
